@@ -226,6 +226,31 @@ theorem exits_match : parentGoneTrace = (round consts 0 .parentGone { now := 0, 
 theorem helper_started_plainly : popenExtraKwargs = [] ∧ popenPathIsLockPath = true ∧ releaseKillsHelper = true ∧ failKillsHelper = true ∧
     failMarkSurvivesRacingRefresh = true := by decide
 
+/-- the state of the helper of the code as it is now, `σ'` seconds after `get()` created the lock at `t₀` -/
+def codeStart (t₀ σ' : Nat) : MonSt := { now := t₀ + σ', mtime := t₀, counter := consts.rounds }
+
+/-- **C19, first half, for the code as it is now** - no hypothesis left but the environment's: the helper starts within 59 s and
+    wakes up at most 10 s late. Then at every instant of every round of a live worker's helper, however long the task runs,
+    `is_failed()` is false -/
+theorem live_never_failed_code (t₀ σ' : Nat) (hσ : σ' ≤ 59) (δs : List Nat) (hδ : ∀ δ ∈ δs, δ ≤ 10)
+    (pre : List Nat) (δ : Nat) (post : List Nat) (he : δs = pre ++ δ :: post) (t : Nat)
+    (ht : t ≤ (runLive consts (codeStart t₀ σ') pre).now + consts.period + δ) :
+    isFailed consts t (runLive consts (codeStart t₀ σ') pre).mtime = false :=
+  (live_never_failed consts 10 59 constants_safe.2 constants_safe.1 δs hδ (codeStart t₀ σ')
+    (start_inv consts 10 59 t₀ σ' hσ constants_safe.2)).2 pre δ post he t ht
+
+/-- **C19, second half, for the code as it is now**: a worker that lives through any number of rounds and is then gone - the
+    helper's life ends at its next wake-up, whatever the overshoots were and whatever would have come after, and from `expiry`
+    after that wake-up on the lock is reported failed -/
+theorem dead_worker_code (t₀ σ' : Nat) (δs : List Nat) (δ : Nat) (post : List (Nat × Env)) :
+    (runEnv consts (codeStart t₀ σ') ((δs.map fun d => (d, Env.ok)) ++ (δ, .parentGone) :: post)).2 = false ∧
+    ∀ t, (runLive consts (codeStart t₀ σ') δs).now + consts.expiry ≤ t →
+      isFailed consts t (runEnv consts (codeStart t₀ σ') ((δs.map fun d => (d, Env.ok)) ++ (δ, .parentGone) :: post)).1.mtime = true := by
+  have h := dead_worker_run consts (δs.map fun d => (d, Env.ok)) post δ (codeStart t₀ σ') (by simp [codeStart])
+    (by rw [runEnv_live])
+  rw [runEnv_live] at h
+  exact ⟨h.1, h.2.2⟩
+
 example : isFailed consts 1800 0 = true ∧ isFailed consts 1799 0 = false := by decide
 
 end Jug.C19
